@@ -220,6 +220,83 @@ def canonItems : List Val → Str
   | v :: rest => 'I' :: canon v ++ canonItems rest
 end
 
+/-! ## The context-free dump (`remove_context("", ast.dump(node))`) -/
+
+def isNoneScalar : Val → Bool
+  | .scalar r _ => r == cs!"None"
+  | _ => false
+
+/-- `ast.dump` omits a field whose value is `None` when the class declares it optional; the only
+non-optional fields that can hold `None` are `Constant.value` and `MatchSingleton.value`. -/
+def keepsNone (ty name : Str) : Bool := (ty == cs!"Constant" || ty == cs!"MatchSingleton") && name == cs!"value"
+
+mutual
+/-- The text the code hashes for an expression, as a function of the tree: `Type(field=value, …)`,
+lists as `[a, b]`, terminal values by their repr, without the `ctx` fields and without the optional
+fields that are `None`. The driver checks on every real expression that the exported repr is this text
+(`c15.spec`: `repr_is_dumpNoCtx`). -/
+def dumpNoCtx : Val → Str
+  | .node ty _ _ _ fs => ty ++ '(' :: dumpNoCtxFields ty true fs ++ [')']
+  | .list _ xs => '[' :: dumpNoCtxItems true xs ++ [']']
+  | .scalar r _ => r
+def dumpNoCtxFields (ty : Str) (first : Bool) : List (Str × Val) → Str
+  | [] => []
+  | (n, v) :: rest =>
+    if n == cs!"ctx" || (isNoneScalar v && !keepsNone ty n) then dumpNoCtxFields ty first rest
+    else (if first then [] else cs!", ") ++ n ++ '=' :: dumpNoCtx v ++ dumpNoCtxFields ty false rest
+def dumpNoCtxItems (first : Bool) : List Val → Str
+  | [] => []
+  | v :: rest => (if first then [] else cs!", ") ++ dumpNoCtx v ++ dumpNoCtxItems false rest
+end
+
+mutual
+/-- The tree without its `ctx` fields. -/
+def stripCtx : Val → Val
+  | .node ty e r ln fs => .node ty e r ln (stripCtxFields fs)
+  | .list q xs => .list q (stripCtxItems xs)
+  | .scalar r k => .scalar r k
+def stripCtxFields : List (Str × Val) → List (Str × Val)
+  | [] => []
+  | (n, v) :: rest => if n == cs!"ctx" then stripCtxFields rest else (n, stripCtx v) :: stripCtxFields rest
+def stripCtxItems : List Val → List Val
+  | [] => []
+  | v :: rest => stripCtx v :: stripCtxItems rest
+end
+
+mutual
+/-- Same types, field names and terminal values (positions, hash sources, flags ignored). -/
+def sameShape : Val → Val → Bool
+  | .node t1 _ _ _ f1, .node t2 _ _ _ f2 => t1 == t2 && sameShapeFields f1 f2
+  | .list _ x1, .list _ x2 => sameShapeItems x1 x2
+  | .scalar r1 _, .scalar r2 _ => r1 == r2
+  | _, _ => false
+def sameShapeFields : List (Str × Val) → List (Str × Val) → Bool
+  | [], [] => true
+  | (n1, v1) :: r1, (n2, v2) :: r2 => n1 == n2 && sameShape v1 v2 && sameShapeFields r1 r2
+  | _, _ => false
+def sameShapeItems : List Val → List Val → Bool
+  | [], [] => true
+  | v1 :: r1, v2 :: r2 => sameShape v1 v2 && sameShapeItems r1 r2
+  | _, _ => false
+end
+
+/-- **The same expression up to load/store context.** -/
+def sameUpToCtx (a b : Val) : Bool := sameShape (stripCtx a) (stripCtx b)
+
+mutual
+/-- Every expression node carries, as hash source, its own context-free dump. -/
+def reprsAreDumps : Val → Bool
+  | .node ty e r ln fs => (!e || r == dumpNoCtx (.node ty e r ln fs)) && reprsAreDumpsFields fs
+  | .list _ xs => reprsAreDumpsItems xs
+  | .scalar _ _ => true
+def reprsAreDumpsFields : List (Str × Val) → Bool
+  | [] => true
+  | (_, v) :: rest => reprsAreDumps v && reprsAreDumpsFields rest
+def reprsAreDumpsItems : List Val → Bool
+  | [] => true
+  | v :: rest => reprsAreDumps v && reprsAreDumpsItems rest
+end
+
 mutual
 /-- Replace the exported repr of every expression node by its canonical context-free form. -/
 def reCanon : Val → Val
@@ -259,7 +336,7 @@ def hashFn (t : Val) : Str → Str :=
 /-- **The flat AST the property describes**: pre-order dump of the tweaked tree (body last in every
 definition), `_hash` = rank of first occurrence of the context-free expression. -/
 def specFlatten (t : Val) : List Str :=
-  let t1 := onTheFly specCfg (reCanon t)
+  let t1 := prep specCfg (reCanon t)
   dumpP (hashFn t1) [] [] (tweak [] t1)
 
 end Paroxy.Flat
